@@ -7,7 +7,8 @@ ob=json.load(open(os.path.join(ROOT,'obligations.json')))
 CLS={'Structural':'S','Exact':'E','Field':'E','Examples':'example','F64':'S','Generic':'S','Real':'R'}
 for i in range(1,21):
     pid=f"C{i:02d}"
-    files=sorted(glob.glob(os.path.join(ROOT,'lean','Ohsl','Props',pid+'*.lean')))
+    enabled=set(open(os.path.join(ROOT,'lean','props_enabled.txt')).read().split())
+    files=[f for f in sorted(glob.glob(os.path.join(ROOT,'lean','Ohsl','Props',pid+'*.lean'))) if os.path.basename(f)[:-5] in enabled]
     thms=[]
     for fn in files:
         src=open(fn).read()
@@ -32,4 +33,6 @@ for i in range(1,21):
     e['theorems']=thms
     e.setdefault('modules',[])
 json.dump(ob,open(os.path.join(ROOT,'obligations.json'),'w'),indent=1)
+en=open(os.path.join(ROOT,'lean','props_enabled.txt')).read().split()
+open(os.path.join(ROOT,'lean','Ohsl.lean'),'w').write('import Ohsl.Driver\n'+''.join(f'import Ohsl.Props.{p}\n' for p in sorted(en)))
 print({k:len(v['theorems']) for k,v in ob.items()})
